@@ -431,9 +431,18 @@ func genC12(e *emitter, tier string, seed uint64) {
 		}
 		return fmt.Sprintf("%s:%d:%s:%d", hex.EncodeToString(txid), r.n(4), sc, sats)
 	}
+	decimalQuotes := []string{"145/1000,29/100", "7/10,3/10", "1/3,57/100", "113/1000,113/1000"}
 	for i := 0; i < n; i++ {
 		tx := genFeeTx(r, r.n(3), r.n(5), 25, 20)
 		fqs := feeQuotes[r.n(len(feeQuotes))]
+		if i%7 == 3 {
+			fqs = decimalQuotes[r.n(len(decimalQuotes))] // rates that are not binary fractions
+		}
+		if i < 8 {
+			// funding carries the input count across the one-byte varint limit (the size estimate grows by two more bytes)
+			tx = genFeeTx(r, 249+i/2, 1+r.n(3), 25, 20)
+			e.note("fund.count-boundary")
+		}
 		var hist []string
 		steps := r.n(6)
 		for s := 0; s < steps; s++ {
